@@ -77,6 +77,9 @@ struct ItemSpec {
     /// do not verify (external_body): signature only; body replaced by unimplemented!()
     #[serde(default)]
     external_body: bool,
+    /// with async_projection = "call": awaits whose operand is a call to one of these (projected) functions are erased instead
+    #[serde(default)]
+    await_erase_calls: Vec<String>,
     /// R15: rewrite every `e?` in the item to `match e { Ok(v) => v, Err(e) => return Err(From::from(e)) }`
     /// (the documented desugaring of `?` on `Result`; Verus loses the `From` specification through `?`)
     #[serde(default)]
@@ -243,6 +246,7 @@ struct Rewriter<'a> {
     drop_macros: &'a BTreeSet<String>,
     async_projection: String,
     desugar_try: bool,
+    await_erase_calls: BTreeSet<String>,
     erase_args_of: BTreeSet<String>,
     rules: BTreeSet<String>,
     keep_derives: BTreeSet<String>,
@@ -577,7 +581,13 @@ impl<'a> VisitMut for Rewriter<'a> {
         if !self.async_projection.is_empty() {
             if let syn::Expr::Await(a) = e {
                 let inner = (*a.base).clone();
-                if self.async_projection == "call" {
+                let callee_last = match &inner {
+                    syn::Expr::Call(c) => match &*c.func { syn::Expr::Path(p) => p.path.segments.last().map(|s| s.ident.to_string()), _ => None },
+                    syn::Expr::MethodCall(m) => Some(m.method.to_string()),
+                    _ => None,
+                };
+                let erase = callee_last.map(|n| self.await_erase_calls.contains(&n)).unwrap_or(false);
+                if self.async_projection == "call" && !erase {
                     *e = syn::parse_quote!(vx_await(#inner));
                 } else {
                     *e = inner;
@@ -1104,6 +1114,7 @@ fn main() {
             drop_macros: &drop_macros,
             async_projection: spec.async_projection.clone(),
             desugar_try: spec.desugar_try_result,
+            await_erase_calls: spec.await_erase_calls.iter().cloned().collect(),
             erase_args_of: spec.erase_args_of.iter().cloned().collect(),
             rules: BTreeSet::new(),
             keep_derives: spec.keep_derives.iter().cloned().collect(),
